@@ -200,6 +200,20 @@ func (e *enc) theoryAxioms() {
 		}
 		e.note("string containment: x occurs in a+x; what occurs in a or in b occurs in a+b (lemmas theory/strings/contains_*.smt2, proved by cvc5 over native strings)")
 	}
+	if e.declared["hasSuffix"] {
+		e.out.Decls = append(e.out.Decls,
+			"(assert (forall ((a Str) (b Str)) (! (hasSuffix (strcat a b) b) :pattern ((strcat a b)))))",
+			"(assert (forall ((a Str)) (! (hasSuffix a a) :pattern ((hasSuffix a a)))))",
+			"(assert (forall ((a Str) (b Str) (x Str)) (! (=> (hasSuffix b x) (hasSuffix (strcat a b) x)) :pattern ((hasSuffix (strcat a b) x)))))",
+			"(assert (forall ((a Str) (b Str) (x Str)) (! (=> (and (hasSuffix (strcat a b) x) (<= (strlen x) (strlen b))) (hasSuffix b x)) :pattern ((hasSuffix (strcat a b) x)))))")
+		e.note("string suffixes: b is a suffix of a+b and of itself; a suffix of b is one of a+b, and a suffix of a+b no longer than b is one of b (lemmas theory/strings/affix_suffix*.smt2, proved by cvc5 over native strings)")
+	}
+	if e.declared["hasPrefix"] {
+		e.out.Decls = append(e.out.Decls,
+			"(assert (forall ((a Str) (b Str)) (! (hasPrefix (strcat a b) a) :pattern ((strcat a b)))))",
+			"(assert (forall ((a Str)) (! (hasPrefix a a) :pattern ((hasPrefix a a)))))")
+		e.note("string prefixes: a is a prefix of a+b and of itself (lemma theory/strings/affix_prefix.smt2, proved by cvc5 over native strings)")
+	}
 }
 
 // ---- small helpers -----------------------------------------------------------------------
